@@ -1,6 +1,6 @@
 #!/bin/sh
 # tools/try_seed.sh <Cnn> <patch.diff> [extra check args]: apply a seeded change to /repo, run the check, undo it.
-P=$1; PATCH=$2; shift 2
+P=$1; PATCH=$(readlink -f "$2"); shift 2
 git -C /repo diff --quiet || { echo "/repo has uncommitted changes"; exit 2; }
 git -C /repo apply "$PATCH" || { echo "patch does not apply"; exit 2; }
 cd /verif && ./check "$P" --no-evidence "$@"; RC=$?
